@@ -73,22 +73,33 @@ public:
 
     void set(const uint8_t* p, size_t n) {
         if (n && !p) throw std::invalid_argument("secret_string::set: null data");
+
+        // Build the new representation aside and commit it at the end: if anything
+        // below throws (std::bad_alloc), the object still holds its previous secret.
+        std::array<uint8_t,12> nonce{};
+        {
+            auto rnd = hmac_cpp::random_bytes(12);
+            std::copy(rnd.begin(), rnd.end(), nonce.begin());
+        }
+
+        std::vector<uint8_t> ct(n);
+        xor_keystream_copy(ct.data(), p, n, nonce.data());
+
+        std::array<uint8_t,32> tag{};
+        {
+            HmacContext c(hmac_cpp::TypeHash::SHA256);
+            auto& pk = process_key();
+            c.init(pk.data(), pk.size());
+            c.update(nonce.data(), nonce.size());
+            if (n) c.update(ct.data(), ct.size());
+            c.final(tag.data(), tag.size());
+        }
+
         clear();
-
-        auto rnd = hmac_cpp::random_bytes(12);
-        std::copy(rnd.begin(), rnd.end(), nonce_.begin());
-
-        ct_.resize(n);
+        ct_.swap(ct);
+        nonce_ = nonce;
+        tag_ = tag;
         if (n) locked_ = lock_pages(ct_.data(), ct_.size());
-
-        xor_keystream_copy(ct_.data(), p, n, nonce_.data());
-
-        HmacContext c(hmac_cpp::TypeHash::SHA256);
-        auto& pk = process_key();
-        c.init(pk.data(), pk.size());
-        c.update(nonce_.data(), nonce_.size());
-        if (n) c.update(ct_.data(), ct_.size());
-        c.final(tag_.data(), tag_.size());
     }
  
     // Not thread-safe if called concurrently with set() or rotate_nonce().
